@@ -31,14 +31,15 @@ VARIABLES
   gs,        \* Nil | [idx, keys]            current guardian set (Processor.gs)
   agg,       \* [digest -> entry]            aggregation map, dynamic domain
   db,        \* [msgId -> stored VAA]        signed-VAA store, dynamic domain
+  up,        \* BOOLEAN                     the store answers (FALSE after StoreDown: every lookup/write fails)
   loop,      \* [digest -> Nat]              own observations in flight back to obsvC
   now,       \* seconds
   out,       \* outputs of the last step: set of gossip messages / re-observation requests
   learned,   \* history: sets received through SetUpdate
   observed   \* history: digests this node observed on chain or was injected
 
-core == <<gs, agg, db, loop, now, learned, observed>>
-vars == <<gs, agg, db, loop, now, out, learned, observed>>
+core == <<gs, agg, db, up, loop, now, learned, observed>>
+vars == <<gs, agg, db, up, loop, now, out, learned, observed>>
 
 JUNK == "JUNK"
 ERR  == "ERR"
@@ -66,7 +67,7 @@ Assemble(signers, S) ==
     IN F[Len(S.keys)]
 
 Init ==
-    /\ gs = Nil /\ agg = <<>> /\ db = <<>> /\ loop = <<>> /\ now = 0
+    /\ gs = Nil /\ agg = <<>> /\ db = <<>> /\ up = TRUE /\ loop = <<>> /\ now = 0
     /\ out = {} /\ learned = {} /\ observed = {}
 
 ---------------------------------------------------------------------------
@@ -75,7 +76,7 @@ SetUpdate(S) ==
     /\ gs' = S
     /\ learned' = learned \cup {S}
     /\ out' = {}
-    /\ UNCHANGED <<agg, db, loop, now, observed>>
+    /\ UNCHANGED <<agg, db, up, loop, now, observed>>
 
 \* broadcastSignature: sign, remember the unsigned VAA with the set in force, loop the signature back.
 Sign(d, body, tx) ==
@@ -83,7 +84,7 @@ Sign(d, body, tx) ==
     /\ out' = {[kind |-> "obs", d |-> d, signer |-> Self, resend |-> FALSE, tx |-> tx]}
     /\ loop' = Put(loop, d, Count(loop, d) + 1)
     /\ observed' = observed \cup {d}
-    /\ UNCHANGED <<gs, db, now, learned>>
+    /\ UNCHANGED <<gs, db, up, now, learned>>
 
 Ignore == out' = {} /\ UNCHANGED core
 
@@ -95,14 +96,15 @@ MustIgnore(m) == gs = Nil \/ m.gov
 MayIgnore(m)  == MustIgnore(m) \/ m.id \in DOMAIN db \/ m.empty
 
 LocalMessageChoice(m, signs) ==
-    IF signs
-    THEN ~MustIgnore(m) /\ Sign(m.d, [id |-> m.id, setIdx |-> gs.idx, chain |-> m.chain, src |-> "chain"], m.tx)
-    ELSE MayIgnore(m) /\ Ignore
+    /\ up
+    /\ IF signs
+       THEN ~MustIgnore(m) /\ Sign(m.d, [id |-> m.id, setIdx |-> gs.idx, chain |-> m.chain, src |-> "chain"], m.tx)
+       ELSE MayIgnore(m) /\ Ignore
 
 LocalMessage(m) == \E signs \in BOOLEAN : LocalMessageChoice(m, signs)
 
 \* case v := <-p.injectC.   v = [d, id, setIdx, chain]
-Inject(v) == Sign(v.d, [id |-> v.id, setIdx |-> v.setIdx, chain |-> v.chain, src |-> "inject"], Nil)
+Inject(v) == up /\ Sign(v.d, [id |-> v.id, setIdx |-> v.setIdx, chain |-> v.chain, src |-> "inject"], Nil)
 
 \* case m := <-p.obsvC.   o = [d, claimed, signer, over]
 ObsSet(d) == IF d \in DOMAIN agg /\ agg[d].snap # Nil THEN agg[d].snap ELSE gs
@@ -130,16 +132,16 @@ ObsEffect(o) ==
                  /\ out' = {}
                  /\ UNCHANGED db
 
-Observation(o) == ObsEffect(o) /\ UNCHANGED <<gs, loop, now, learned, observed>>
+Observation(o) == up /\ ObsEffect(o) /\ UNCHANGED <<gs, up, loop, now, learned, observed>>
 
 \* The node's own signature coming back through obsvC.
 OwnObs(d) == [d |-> d, claimed |-> Self, signer |-> Self, over |-> d]
 
 Loopback(d) ==
-    /\ Count(loop, d) > 0
+    /\ up /\ Count(loop, d) > 0
     /\ ObsEffect(OwnObs(d))
     /\ loop' = IF loop[d] = 1 THEN Drop(loop, {d}) ELSE [loop EXCEPT ![d] = @ - 1]
-    /\ UNCHANGED <<gs, now, learned, observed>>
+    /\ UNCHANGED <<gs, up, now, learned, observed>>
 
 \* case m := <-p.signedInC.   w = [ok, d, id, setIdx, sigs]  (ok = decodable; sigs = seq of [idx, signer])
 InboundAccept(w) ==
@@ -154,8 +156,9 @@ InboundAccept(w) ==
 \* The properties only forbid storing what fails the check; they do not oblige the node to keep
 \* every valid copy it is shown, so `stores` is the implementation's choice when acceptance is allowed.
 InboundVAAChoice(w, stores) ==
+    /\ up
     /\ out' = {}
-    /\ UNCHANGED <<gs, agg, loop, now, learned, observed>>
+    /\ UNCHANGED <<gs, agg, up, loop, now, learned, observed>>
     /\ IF stores
        THEN /\ InboundAccept(w)
             /\ db' = Put(db, w.id, [d |-> w.d, id |-> w.id, setIdx |-> w.setIdx, sigs |-> w.sigs,
@@ -164,15 +167,22 @@ InboundVAAChoice(w, stores) ==
 
 InboundVAA(w) == \E stores \in BOOLEAN : InboundVAAChoice(w, stores)
 
+\* Fault: the store stops answering (closed handle, I/O error).  While it is down only time and cleanup
+\* ticks are specified; what the other handlers do with a failing store is outside the listed properties.
+StoreDown ==
+    /\ up /\ up' = FALSE /\ out' = {}
+    /\ UNCHANGED <<gs, agg, db, loop, now, learned, observed>>
+
 Advance(k) ==
     /\ now' = now + k
     /\ out' = {}
-    /\ UNCHANGED <<gs, agg, db, loop, learned, observed>>
+    /\ UNCHANGED <<gs, agg, db, up, loop, learned, observed>>
 
 \* case <-p.cleanup.C.   One decision per entry, entries are independent.
 Age(e)        == now - e.first
 RetryDue(e)   == e.lastRetry = Nil \/ now - e.lastRetry >= RetryT
-LateSet       == {d \in DOMAIN agg : /\ ~agg[d].submitted /\ agg[d].our # Nil
+\* Entries for which the store *answers* that a quorum VAA exists (a failing lookup is not an answer).
+LateSet       == {d \in DOMAIN agg : /\ up /\ ~agg[d].submitted /\ agg[d].our # Nil
                                      /\ Age(agg[d]) >= SettleT /\ agg[d].our.id \in DOMAIN db}
 
 Decision(d, L) ==
@@ -195,8 +205,8 @@ CleanupTick(L) ==
                          [] Decision(d, L) = "retry"  -> [agg[d] EXCEPT !.retry = @ + 1, !.lastRetry = now]
                          [] OTHER -> agg[d]]
           /\ out' = {[kind |-> "obs", d |-> d, signer |-> Self, resend |-> TRUE, tx |-> agg[d].tx] : d \in rt}
-                    \cup {[kind |-> "req", chain |-> agg[d].our.chain, tx |-> agg[d].tx] : d \in rt}
-    /\ UNCHANGED <<gs, db, loop, now, learned, observed>>
+                    \cup {[kind |-> "req", chain |-> agg[d].our.chain, tx |-> agg[d].tx, d |-> d] : d \in rt}
+    /\ UNCHANGED <<gs, db, up, loop, now, learned, observed>>
 
 ---------------------------------------------------------------------------
 (* Properties *)
@@ -259,7 +269,7 @@ SubmittedSticky == [][SubmittedStickyStep]_vars
 NoEarlyDiscardStep ==
     \A d \in DOMAIN agg \ DOMAIN agg' :
           (agg[d].our # Nil /\ ~agg[d].submitted) =>
-              (agg[d].retry >= RetryBudget \/ agg[d].our.id \in DOMAIN db)
+              (agg[d].retry >= RetryBudget \/ (up /\ agg[d].our.id \in DOMAIN db))
 NoEarlyDiscard == [][NoEarlyDiscardStep]_vars
 
 RetryCadenceStep ==
@@ -269,14 +279,14 @@ RetryCadenceStep ==
               /\ agg[d].our # Nil /\ ~agg[d].submitted
               /\ Age(agg[d]) >= RetryT /\ RetryDue(agg[d])
               /\ [kind |-> "obs", d |-> d, signer |-> Self, resend |-> TRUE, tx |-> agg[d].tx] \in out'
-              /\ [kind |-> "req", chain |-> agg[d].our.chain, tx |-> agg[d].tx] \in out'
+              /\ [kind |-> "req", chain |-> agg[d].our.chain, tx |-> agg[d].tx, d |-> d] \in out'
 RetryCadence == [][RetryCadenceStep]_vars
 
 \* Nothing but a retry re-sends or requests anything.
 RetryOnlyWhenDueStep ==
     \A o \in out' : (o.kind = "req" \/ (o.kind = "obs" /\ o.resend)) =>
           \E d \in DOMAIN agg \cap DOMAIN agg' : agg'[d].retry = agg[d].retry + 1
-               /\ (o.kind = "obs" => o.d = d)
+               /\ o.d = d
 RetryOnlyWhenDue == [][RetryOnlyWhenDueStep]_vars
 
 =============================================================================
